@@ -816,12 +816,16 @@ class Tr:
         return True
 
     def expand_icall(self, m):
-        sig, d, callee, av, in_co, resume_k, dst_l = self.icalls[int(m.group(1))]
+        sig, d, callee, av, in_co, resume_k, dst_l, cur_fn = self.icalls[int(m.group(1))]
         want = self.nsig(sig[0], sig[1])
         cands = sorted(n for n in self.addr_taken if self.fsig.get(n) == want)
         out = ''
         for n in cands:
             c = self.cid(n)
+            if n in self.co and n == cur_fn:
+                # a resumable function has one frame per thread: direct recursion through a function pointer is outside the encoding
+                out += 'if (%s == (void*)%s) { __CPROVER_assert(0, "BOUND: recursion of a resumable function"); __CPROVER_assume(0); } else ' % (callee, c)
+                continue
             if n in self.co:
                 if not in_co:
                     raise NotImplementedError('indirect call of may-yield function %s from plain function' % n)
@@ -839,7 +843,7 @@ class Tr:
             # resume points for co candidates
             tail = ' goto RE%d; ' % resume_k
             for n in cands:
-                if n in self.co:
+                if n in self.co and n != cur_fn:
                     c = self.cid(n)
                     i = cands.index(n)
                     tail += 'RI%d_%d: ; if (%s_co()) { F->pc = %d; return 1; } ' % (resume_k, i, c, resume_k)
@@ -847,7 +851,7 @@ class Tr:
                         tail += '%s = fr_%s[__vf_cur].ret; ' % (dst_l, c)
                     tail += 'goto RE%d; ' % resume_k
             # on resume: jump back into the right candidate
-            res = 'R%d: ; switch (F->ic%d) { %s default: __vf_bad_icall(); } ' % (resume_k, resume_k, ' '.join('case %d: goto RI%d_%d;' % (cands.index(n), resume_k, cands.index(n)) for n in cands if n in self.co))
+            res = 'R%d: ; switch (F->ic%d) { %s default: __vf_bad_icall(); } ' % (resume_k, resume_k, ' '.join('case %d: goto RI%d_%d;' % (cands.index(n), resume_k, cands.index(n)) for n in cands if n in self.co and n != cur_fn))
             out = out + tail + res + 'RE%d: ;' % resume_k
         return out
 
@@ -869,7 +873,7 @@ class Tr:
         self.cur_rt = rt
         self.vals = {}
         self.tmpn = 0
-        self.acc_on = any(self.cid(nm).startswith(pfx) for pfx in self.acc_prefixes)
+        self.acc_on = any(self.cid(nm).startswith(pfx) for pfx in self.acc_prefixes) and not self.cid(nm).startswith(('vf_', '__vf_'))
         for t, a in ps:
             self.vals[a] = t
         blocks = []
@@ -1411,8 +1415,12 @@ class Tr:
         if k == 'alloca':
             _, d, t, n = ins
             if self.cur_co:
-                self.co_mem.append('%s %s_mem;' % (self.ctype(t), 'v_' + self.cid(d)))
-                return ['%s = &%s_mem;' % (L(d), L(d))]
+                # automatic objects of resumable functions live in their own per-thread global arrays, NOT inside the frame struct:
+                # a store through a pointer into the frame would make CBMC rewrite every frame field with a byte_update of the whole object
+                gname = 'am_%s_%s' % (self.cid(self.cur_fn), 'v_' + self.cid(d))
+                init = ' = {{0}}' if t[0] == 'struct' else ''
+                self.frames.append('%s %s[%s]%s;' % (self.ctype(t), gname, self.nthr_macro, '' if not init else ''))
+                return ['%s = &%s[__vf_cur];' % (L(d), gname)]
             if n in ('1', '1U', '1ULL'):
                 # clang coerces small classes to literal types such as { i64, i64 } and then stores narrower fields into them: on a
                 # nondeterministic base CBMC keeps nested byte_update terms that its simplifier does not fold, which makes concrete
@@ -1488,9 +1496,10 @@ class Tr:
                     self.tmpn += 1
                     tn = 'bv%d' % self.tmpn
                     if self.cur_co:
-                        self.co_extra.append('%s %s;' % (self.ctype(bv), tn))
-                        pre.append('F->%s = *(%s*)%s;' % (tn, self.ctype(bv), a))
-                        av.append('((void*)&F->%s)' % tn)
+                        gname = 'bv_%s_%s' % (self.cid(self.cur_fn), tn)
+                        self.frames.append('%s %s[%s];' % (self.ctype(bv), gname, self.nthr_macro))
+                        pre.append('%s[__vf_cur] = *(%s*)%s;' % (gname, self.ctype(bv), a))
+                        av.append('((void*)&%s[__vf_cur])' % gname)
                     else:
                         pre.append('%s %s = *(%s*)%s;' % (self.ctype(bv), tn, self.ctype(bv), a))
                         av.append('((void*)&%s)' % tn)
@@ -1544,7 +1553,7 @@ class Tr:
                     self.resume += 1
                     rk = self.resume
                     self.co_extra.append('int ic%d;' % rk)
-                self.icalls.append((sig, d, callee, av, self.cur_co, rk, L(d) if d else None))
+                self.icalls.append((sig, d, callee, av, self.cur_co, rk, L(d) if d else None, self.cur_fn))
                 return pre + ['/*ICALL%d*/' % (len(self.icalls) - 1)]
             if d and rt[0] != 'void':
                 return pre + ['%s = %s;' % (L(d), e)]
